@@ -187,6 +187,11 @@ func (this *contractExecutor) Execute(transaction *types.Transaction, header *ty
 	if common.IsProposal015() {
 		gasUsed := gasLimit - leftOverGas
 		gasFeeUsed := new(big.Int).Mul(new(big.Int).SetUint64(gasUsed), defaultGasPrice)
+		// the execution may have moved the sender's balance away (the balance is a slot of the bound
+		// token contract); SubBalance then does nothing, so never credit more than can be debited
+		if balance := accountdb.GetBalance(common.HexToAddress(transaction.Source)); balance.Cmp(gasFeeUsed) < 0 {
+			gasFeeUsed = balance
+		}
 		accountdb.SubBalance(common.HexToAddress(transaction.Source), gasFeeUsed)
 		accountdb.AddBalance(common.FeeAccount, gasFeeUsed)
 		context["gasUsed"] = gasUsed
